@@ -1,6 +1,7 @@
 from typing import Awaitable
 from pyg_base._decorators import wrapper
 import asyncio
+from copy import copy
 __all__ = ['waiter', 'async_wrapper']
 
 
@@ -54,7 +55,10 @@ async def waiter(value):
         return type(value)(*values) if hasattr(value, '_fields') else type(value)(values) # a namedtuple takes separate fields
     elif isinstance(value, dict):
         values = await asyncio.gather(*[waiter(v) for v in value.values()])
-        return type(value)(dict(zip(value.keys(), values))) 
+        res = copy(value) # keeps the class and what it holds beside its items: type(value)(dict) assumes a constructor that takes a mapping, a defaultdict takes its default_factory first
+        for key, v in zip(value.keys(), values):
+            res[key] = v
+        return res
     elif isinstance(value, Awaitable):
         return await value
     else:
